@@ -1958,3 +1958,194 @@ func init() {
 	registry["C06"].Meta.Rules["C06.21"] = "what is trimmed off the end was looked at: on the read path every reslice s[:len(s)-k] of a string or byte slice (k a small constant) is dominated by a test that reads s itself (the terminator or padding byte it removes); cut unconditionally, every variable-length string attribute loses its last character"
 	registry["C06"].Rules = append(registry["C06"].Rules, func(c *Ctx, r *Result) { tailTrimRule(c, r, "C06.21", 2) })
 }
+
+// ---- round 8 shares for C10: what a later session rewrites is what the earlier one wrote ----
+func init() {
+	registry["C10"].Meta.Rules["C10.16"] = registry["C14"].Meta.Rules["C14.14"] + " (shared with C14.14: every dense attribute operation of a later session loads this header, changes it and writes it back; a field taken from another field's bytes alters bytes that the session did not modify)"
+	registry["C10"].Rules = append(registry["C10"].Rules, func(c *Ctx, r *Result) {
+		n := layoutAgreementRule(c, r, "C10.16", "B-tree v2 header", "structures.WritableBTreeV2.encodeHeader", "structures.readBTreeV2Header", "core.readBTreeV2HeaderRaw")
+		if n < 8 {
+			r.Shortfall(c, "C10.16", fmt.Sprintf("C10.16: only %d header fields compared", n))
+		}
+	})
+	scope := func(n string) bool {
+		for _, p := range []string{"core.ObjectHeaderWriter.", "core.WriteObjectHeader", "core.RewriteObjectHeader", "core.AddMessageToObjectHeader", "core.ModifyCompactAttribute", "hdf5.writeCompactAttribute", "hdf5.upsertAttributeMessage"} {
+			if strings.HasPrefix(n, p) {
+				return true
+			}
+		}
+		return false
+	}
+	registry["C10"].Meta.Rules["C10.17"] = "an object header rewritten by a later session fits its size field: narrowing conversions in the header writer and the compact attribute upsert are proven to fit or frozen per function (C05.11 restricted to this code: a compact upsert that brings the header to exactly 256 bytes must be refused; written with size byte 0 the whole file no longer opens)"
+	registry["C10"].Rules = append(registry["C10"].Rules, func(c *Ctx, r *Result) { narrowingRuleScoped(c, r, "C10.17", scope) })
+}
+
+// ---- a width selector decodes the width it selected (C14.19 / C11.22) ----
+//
+// Where one value is compared for equality with several of 2, 4, 8 and at least two of the selected arms call UintN /
+// PutUintN with N = 8k, the value is a width, and then every arm it selects uses the accessor of its width.
+func widthArmRule(c *Ctx, r *Result, rule string, floor int) {
+	type arm struct {
+		k, n int64
+		pos  token.Pos
+	}
+	nsel := 0
+	for _, fn := range c.LibFuncs() {
+		if fn.Blocks == nil {
+			continue
+		}
+		groups := map[ssa.Value][]arm{}
+		var order []ssa.Value
+		for _, b := range fn.Blocks {
+			ifi, ok := b.Instrs[len(b.Instrs)-1].(*ssa.If)
+			if !ok {
+				continue
+			}
+			cmp, ok := ifi.Cond.(*ssa.BinOp)
+			if !ok || cmp.Op != token.EQL {
+				continue
+			}
+			k, isK := constInt(cmp.Y)
+			if !isK || (k != 2 && k != 4 && k != 8) {
+				continue
+			}
+			x := stripConv(cmp.X)
+			for _, in := range b.Succs[0].Instrs {
+				call, isCall := in.(*ssa.Call)
+				if !isCall {
+					continue
+				}
+				name := ""
+				if call.Call.IsInvoke() {
+					name = call.Call.Method.Name()
+				} else if f := call.Call.StaticCallee(); f != nil && fnPkgPath(f) == "encoding/binary" {
+					name = f.Name()
+				}
+				var w int64
+				switch strings.TrimPrefix(name, "Put") {
+				case "Uint16":
+					w = 2
+				case "Uint32":
+					w = 4
+				case "Uint64":
+					w = 8
+				default:
+					continue
+				}
+				if _, seen := groups[x]; !seen {
+					order = append(order, x)
+				}
+				groups[x] = append(groups[x], arm{k, w, call.Pos()})
+				break
+			}
+		}
+		for _, x := range order {
+			arms := groups[x]
+			match := 0
+			for _, a := range arms {
+				if a.k == a.n {
+					match++
+				}
+			}
+			if match < 2 {
+				continue
+			}
+			nsel++
+			for _, a := range arms {
+				r.Check(a.k == a.n, rule, fmt.Sprintf("%s#arm-for-width-%d", c.Name(fn), a.k), c.Pos(a.pos), fmt.Sprintf("the arm selected by width == %d accesses %d bytes", a.k, a.k))
+			}
+		}
+	}
+	if nsel < floor {
+		r.Shortfall(c, rule, fmt.Sprintf("%s: only %d width selectors found (expected >= %d)", rule, nsel, floor))
+	}
+}
+
+// ---- the B-tree v2 leaf: capacity, serialized size and reserved room agree (C14.18, C14.20) ----
+func btreeLeafRoomRule(c *Ctx, r *Result) {
+	sizeFn, capFn := c.FnOpt("structures.WritableBTreeV2.calculateLeafSize"), c.FnOpt("structures.WritableBTreeV2.calculateMaxRecords")
+	if sizeFn == nil || capFn == nil {
+		r.Undec("C14.18", "structures.WritableBTreeV2#leaf-size-and-capacity", "", "calculateLeafSize / calculateMaxRecords not found")
+	} else {
+		// size = K1 + n*R1
+		var k1, r1 int64 = -1, -1
+		fb := c.FB(sizeFn)
+		instrs(sizeFn, func(in ssa.Instruction) {
+			if ret, ok := in.(*ssa.Return); ok && len(ret.Results) == 1 {
+				l := fb.lin(stripConv(ret.Results[0]))
+				if len(l.T) == 1 {
+					k1 = l.C
+					for _, co := range l.T {
+						r1 = co
+					}
+				}
+			}
+		})
+		// capacity = (S - K2) / R2
+		var k2, r2 int64 = -1, -1
+		fb2 := c.FB(capFn)
+		instrs(capFn, func(in ssa.Instruction) {
+			if q, ok := in.(*ssa.BinOp); ok && q.Op == token.QUO {
+				if d, isK := constInt(q.Y); isK {
+					l := fb2.lin(stripConv(q.X))
+					if len(l.T) == 1 {
+						r2, k2 = d, -l.C
+					}
+				}
+			}
+		})
+		if k1 < 0 || k2 < 0 {
+			r.Undec("C14.18", "structures.WritableBTreeV2#leaf-size-and-capacity", c.Pos(capFn.Pos()), "size is not K + n*R or capacity is not (S - K)/R")
+		} else {
+			r.Check(k1 == k2 && r1 == r2, "C14.18", "structures.WritableBTreeV2.calculateMaxRecords#same-overhead-and-record-size-as-calculateLeafSize", c.Pos(capFn.Pos()),
+				fmt.Sprintf("the leaf is serialized in %d + n*%d bytes; the capacity is (node size - %d) / %d", k1, r1, k2, r2))
+		}
+	}
+	// the address stored as the root node was allocated with the node size
+	n := 0
+	for _, fn := range c.LibFuncs() {
+		if fnPkgPath(fn) != modPath+"/internal/structures" {
+			continue
+		}
+		instrs(fn, func(in ssa.Instruction) {
+			st, ok := in.(*ssa.Store)
+			if !ok {
+				return
+			}
+			fa, ok := st.Addr.(*ssa.FieldAddr)
+			if !ok {
+				return
+			}
+			f, base := fieldOfAddr(fa)
+			if f == nil || fieldKey(base.Type(), f) != "structures.BTreeV2Header.RootNodeAddr" {
+				return
+			}
+			ex, ok := stripConv(st.Val).(*ssa.Extract)
+			if !ok {
+				return
+			}
+			call, ok := ex.Tuple.(*ssa.Call)
+			if !ok || !call.Call.IsInvoke() || call.Call.Method.Name() != "Allocate" || len(call.Call.Args) != 1 {
+				return
+			}
+			n++
+			a := call.Call.Args[0]
+			okSize := valueReadsField(a, "structures.WritableBTreeV2.nodeSize", 0) || valueReadsField(a, "structures.BTreeV2Header.NodeSize", 0)
+			r.Check(okSize, "C14.20", c.Name(fn)+"#root-leaf-allocated-with-the-node-size", c.InstrPos(call), "the room reserved for the leaf is the node size the capacity test divides")
+		})
+	}
+	if n < 1 {
+		r.Shortfall(c, "C14.20", "C14.20: no allocation whose address becomes the root node address")
+	}
+}
+
+func init() {
+	registry["C14"].Meta.Rules["C14.18"] = "the capacity test admits what the serialized leaf holds: calculateLeafSize returns K + n*R and calculateMaxRecords returns (node size - K) / R with the same K and R (an overhead one byte short admits one record more than fits whenever node size mod 11 is 9: the leaf image is then larger than its node)"
+	registry["C14"].Meta.Rules["C14.20"] = "the leaf is given the room the capacity test assumes: the allocation whose address is stored as the header's root node address asks for the tree's node size (with the default constant a tree created with a larger node size overlaps whatever is allocated next - its own header - once it holds more than 371 records)"
+	registry["C14"].Rules = append(registry["C14"].Rules, btreeLeafRoomRule)
+	txt := "a width selector accesses the width it selected: where one value is compared for equality with 2, 4, 8 and at least two of the selected arms call UintN / PutUintN with N = 8k, every arm it selects does (case 4 reading Uint16 returns a root node address modulo 65536 in a file with 4-byte offsets: the index of another object is loaded, with valid checksums)"
+	registry["C14"].Meta.Rules["C14.19"] = txt
+	registry["C14"].Rules = append(registry["C14"].Rules, func(c *Ctx, r *Result) { widthArmRule(c, r, "C14.19", 3) })
+	registry["C11"].Meta.Rules["C11.22"] = txt + " (shared with C14.19)"
+	registry["C11"].Rules = append(registry["C11"].Rules, func(c *Ctx, r *Result) { widthArmRule(c, r, "C11.22", 3) })
+}
